@@ -164,7 +164,7 @@ impl ReceiveChannelUnreliable {
 
     pub fn process_slice(&mut self, slice: Slice, current_time: Duration) -> Result<(), ChannelError> {
         if !self.slices.contains_key(&slice.message_id) {
-            let message_len = slice.num_slices * SLICE_SIZE;
+            let message_len = SliceConstructor::reserved_bytes(slice.num_slices);
             if self.memory_usage_bytes + message_len > self.max_memory_usage_bytes {
                 log::warn!(
                     "dropped unreliable slice message received because channel {} is memory limited",
@@ -189,9 +189,9 @@ impl ReceiveChannelUnreliable {
         if let Some(message) = slice_constructor.process_slice(slice.slice_index, &slice.payload)? {
             self.slices.remove(&slice.message_id);
             self.slices_last_received.remove(&slice.message_id);
-            self.memory_usage_bytes -= slice.num_slices * SLICE_SIZE;
-            self.memory_usage_bytes += message.len();
-            self.messages.push_back(message);
+            self.memory_usage_bytes -= SliceConstructor::reserved_bytes(slice.num_slices);
+            // The exact size replaces the reservation, like any other message it is dropped if it does not fit
+            self.process_message(message);
         } else {
             self.slices_last_received.insert(slice.message_id, current_time);
         }
@@ -215,7 +215,7 @@ impl ReceiveChannelUnreliable {
         for message_id in lost_messages.iter() {
             self.slices_last_received.remove(message_id);
             let slice = self.slices.remove(message_id).expect("discarded slice should exist");
-            self.memory_usage_bytes -= slice.num_slices * SLICE_SIZE;
+            self.memory_usage_bytes -= SliceConstructor::reserved_bytes(slice.num_slices);
         }
     }
 
